@@ -18,8 +18,9 @@ def main():
     sh("git -C /repo archive HEAD crates Cargo.toml Cargo.lock examples | tar -x -C %s" % ROOT)
     env = dict(os.environ, VERIF_REPO=ROOT, VERIF_EVIDENCE_DIR="/tmp/verif-rf-ev", VERIF_CACHE="/tmp/wt/rfclean-cache", VERIF_FLOW_TARGET=os.path.join(HERE, ".cache", "flow-target"))
     for rf in sys.argv[1:]:
-        for d in sorted(glob.glob("/tmp/wt/%s-out/r*" % rf)):
-            pid = "%s-%s" % (rf, os.path.basename(d))
+        cands = sorted(set(glob.glob("/tmp/wt/%s-out/r*" % rf)) | set(glob.glob(os.path.join(HERE, "seeded", "refactors", "%s-r*" % rf))))
+        for d in cands:
+            pid = "%s-%s" % (rf, os.path.basename(d)) if d.startswith("/tmp/wt/") else os.path.basename(d)
             patch = os.path.join(d, "patch.diff")
             if not os.path.exists(patch) or pid in res:
                 continue
@@ -39,7 +40,8 @@ def main():
             res[pid] = {"status": "alarm" if alarms else "silent", "alarms": alarms, "kind": meta.get("kind"), "files": meta.get("files"), "summary": (meta.get("summary") or "")[:200]}
             json.dump(res, open(out_path, "w"), indent=1)
             os.makedirs(os.path.join(HERE, "seeded", "refactors", pid), exist_ok=True)
-            shutil.copy(patch, os.path.join(HERE, "seeded", "refactors", pid, "patch.diff"))
+            if os.path.abspath(patch) != os.path.abspath(os.path.join(HERE, "seeded", "refactors", pid, "patch.diff")):
+                shutil.copy(patch, os.path.join(HERE, "seeded", "refactors", pid, "patch.diff"))
             print(pid, res[pid]["status"], {k: v[0][:160] for k, v in alarms.items()}, flush=True)
     json.dump(res, open(out_path, "w"), indent=1)
 
